@@ -44,6 +44,13 @@ func semverish(level int, prefixes G, arMin, arMax int) G {
 	bit := Lit("0", "1")
 	long := func(n int) G { return Seq(prefixes[:1], Lit("1.0.0-"), Join(bit, Lit("."), n, n)) }
 	out = Alt(out, long(5), long(6), Seq(prefixes[:1], Lit("1.0.0-"), Join(Lit("1", "a"), Lit("."), 8, 8)))
+	for _, n := range []int{9, 17, 33} {
+		ones := "1.0.0-1"
+		for i := 1; i < n; i++ {
+			ones += ".1"
+		}
+		out = Alt(out, Seq(prefixes[:1], Lit(ones, ones[:len(ones)-1]+"2", ones[:len(ones)-1]+"a", ones[:len(ones)-2])))
+	}
 	if level > 0 {
 		pre3 := Seq(Lit("-"), Lit("0", "1", "a", "-"), Rep(Seq(Lit("."), Lit("0", "1", "a", "-")), 0, 3))
 		coreT := core
@@ -147,7 +154,7 @@ func Versions(name string, level int) G {
 			Seq(Opt(Lit("v")), dotted(Lit("1", "2"), 1, 3), Lit("-"), stab, Opt(Lit("1", "2", ".1", ".2", "10"))),
 			Seq(dotted(Lit("1", "2"), 1, 3), stab, Opt(Lit("1", "2", "10"))),
 			Seq(Lit("1.0", "1.0.0"), Opt(Lit("-beta1", "b1", "-RC2")), Lit("+b", "+1.x")),
-			Lit("dev-master", "dev-main", "dev-feature/x", "dev-", "master", "main", "develop", "trunk", "feature/x", "feature-x", "1.0-dev", "1.x-dev", "x-dev", "1.0.x-dev", "release-1.0", "1.0b1", "1.0.0-beta1", "1.0-beta1", "2147483648", "9223372036854775808", "1.9223372036854775808", "1.0-rc9223372036854775808", "1.0@dev", "1.0.0.0.0.0"),
+			Lit("dev-9.x", "dev-10.x", "dev-5.x-legacy", "dev-2", "dev-10", "dev-1.x", "dev-2.x", "dev-10.0", "dev-master", "dev-main", "dev-feature/x", "dev-", "master", "main", "develop", "trunk", "feature/x", "feature-x", "1.0-dev", "1.x-dev", "x-dev", "1.0.x-dev", "release-1.0", "1.0b1", "1.0.0-beta1", "1.0-beta1", "2147483648", "9223372036854775808", "1.9223372036854775808", "1.0-rc9223372036854775808", "1.0@dev", "1.0.0.0.0.0"),
 			AllStrings(Chars("01.-vabdev"), pick(level, 4, 5)),
 		)
 	case "conan":
